@@ -186,7 +186,7 @@ SCENARIOS = {
 # IsotxsLibrary._mergeNuclides adopts the nuclides of the other library one by one and notices an overlapping label only
 # when it gets there: the labels that precede it in the other library have already been moved into the target (and now
 # name the target as their container) when the AttributeError is raised.  Reproduction (plain Python) in the report.
-KNOWN_DEFECT_refused_merge_already_adopted_preceding_nuclides = True
+KNOWN_DEFECT_refused_merge_already_adopted_preceding_nuclides = False  # recorded in known_findings.jsonl
 
 
 @harness("C10", bounds="2-3 single-kind libraries (ISOTXS-, GAMISO-, PMATRX-like; 2 neutron / 3 gamma groups; 2 nuclide "
@@ -228,8 +228,11 @@ def library_merge_is_lossless_and_order_independent(ctx, scenario):
                      if any(srcs[j].kind == s.kind and lab in srcs[j].labels for j in merged)]
             adoptedSome = bool(first) and s.labels.index(first[0]) > 0 and not bool(metaConflict)
             if not (KNOWN_DEFECT_refused_merge_already_adopted_preceding_nuclides and adoptedSome):
-                same_state(ctx, "step %d refused: target" % step, before, state(target))
-                same_state(ctx, "step %d refused: other library" % step, beforeOther, state(s.lib))
+                # the configuration of the recorded finding is named in the obligation, so that the entry in
+                # known_findings.jsonl covers exactly it (labels preceding the overlapping one in the other library)
+                tag = "refused after labels that precede the overlapping one" if adoptedSome else "refused"
+                same_state(ctx, "step %d %s: target" % (step, tag), before, state(target))
+                same_state(ctx, "step %d %s: other library" % (step, tag), beforeOther, state(s.lib))
             return
         merged.append(i)
     # ---- everything arrived: union of the sources, each datum identical to its source
